@@ -145,6 +145,28 @@ class Player:
         self.running.discard(t)
         self.ev.append({"a": "Finish", "t": t, "st": got})
 
+    def imported(self, script, st):
+        """Second scenario family: a finished trial brought in with study.add_trial (no pruner ever saw it);
+        the abstract history is the same as asking, reporting and telling it."""
+        import optuna
+        from optuna.trial import TrialState
+
+        iv = {}
+        for s_, v in script:
+            iv.setdefault(s_, math.nan if v == NAN else float(v))
+        state = TrialState.COMPLETE if st == "COMPLETE" else TrialState.PRUNED
+        self.study.add_trial(optuna.trial.create_trial(
+            state=state, value=0.0 if st == "COMPLETE" else None, intermediate_values=iv))
+        t = len(self.trials)
+        fz = self.study.get_trials(deepcopy=False)[-1]
+        if fz.number != t:
+            raise tlc.MachineryError("imported trial did not get the next number")
+        self.trials.append(None)
+        self.ev.append({"a": "NewTrial", "t": t, "imported": 1})
+        for s_, v in script:
+            self.ev.append({"a": "Report", "t": t, "s": s_, "v": v})
+        self.ev.append({"a": "Finish", "t": t, "st": fz.state.name})
+
     def apply(self, e):
         a = e["a"]
         if a == "NewTrial":
@@ -303,8 +325,12 @@ def play_random(rng, storages, skind, kind=None):
                 p.fin(t, "PRUNED")
             # else: left RUNNING
 
+    n_import = rng.choice([0, 1, 2]) if rng.random() < 0.12 else 0
     if not interleave:
         for i in range(n_trials):
+            if i < min(n_import, n_trials - 1):
+                p.imported(scripts[i], rng.choice(["COMPLETE", "COMPLETE", "PRUNED"]))
+                continue
             t = p.new()
             pruned = False
             for s, v in scripts[i]:
@@ -521,7 +547,18 @@ def replay(ctx, data):
         new.update({"tid": 1, "storage": "several", "origin": "bracket"})
     else:
         p = Player(tr["cfg"], storages, tr.get("storage", "mem"))
-        for e in tr["ev"]:
+        evs = tr["ev"]
+        i = 0
+        while i < len(evs):
+            e = evs[i]
+            if e["a"] == "NewTrial" and e.get("imported"):
+                j = i + 1
+                while evs[j]["a"] == "Report":
+                    j += 1
+                p.imported([(x["s"], x["v"]) for x in evs[i + 1:j]], evs[j]["st"])
+                i = j + 1
+                continue
             p.apply(e)
+            i += 1
         new = {"tid": 1, "cfg": p.c, "ev": p.ev, "storage": p.skind, "origin": "replay"}
     judge(ctx, [new], "replay")
